@@ -2423,7 +2423,13 @@ class _StmtMixin:
             seen.add((file, qual))
             c = self.reg.lookup(file, qual)
             if c is None:
-                raise ToolLimit(f"loop body calls {qual} which has no contract")
+                # same rule as call_unit: a contract-less helper is verified as part of its callers, so its body belongs to the frame
+                try:
+                    fn0 = self.find_def(file, qual)
+                except (KeyError, AttributeError):
+                    raise ToolLimit(f"loop body calls {qual} which has no contract")
+                scan(fn0.body, file, qual.split(".")[0] if "." in qual else None, seen)
+                return
             if c.inline:
                 scan(self.find_def(file, qual).body, file, qual.split(".")[0] if "." in qual else None, seen)
             else:
@@ -2677,6 +2683,36 @@ class _StmtMixin:
                 continue
             yield from self.for_over(s, it, s1)
 
+    def append_map_loop(self, s, st):
+        if not (isinstance(s.target, ast.Name) and len(s.body) == 1 and isinstance(s.body[0], ast.Expr)):
+            return None
+        call = s.body[0].value
+        if not (isinstance(call, ast.Call) and isinstance(call.func, ast.Attribute) and call.func.attr == "append" and isinstance(call.func.value, ast.Name)
+                and len(call.args) == 1 and not call.keywords):
+            return None
+        lst, tgt = call.func.value.id, s.target.id
+        if lst == tgt or any(isinstance(n, ast.Name) and n.id == lst for n in ast.walk(call.args[0])) or any(isinstance(n, ast.Name) and n.id == lst for n in ast.walk(s.iter)):
+            return None
+        fr = st.sframes[-1]
+        fn = getattr(fr, "fn", None)
+        if fn is None:
+            try:
+                fn = self.find_def(fr.file, fr.qual)
+            except Exception:
+                return None
+        if s not in fn.body:
+            return None            # nested in another block: later iterations could read the loop variable
+        end = getattr(s, "end_lineno", s.lineno)
+        for n in ast.walk(fn):
+            if isinstance(n, ast.Name) and n.id == tgt and isinstance(n.ctx, ast.Load) and n.lineno > end:
+                return None
+        gen = ast.GeneratorExp(elt=call.args[0], generators=[ast.comprehension(target=ast.Name(id=tgt, ctx=ast.Store()), iter=s.iter, ifs=[], is_async=0)])
+        new_call = ast.Call(func=ast.Attribute(value=ast.Name(id=lst, ctx=ast.Load()), attr="extend", ctx=ast.Load()), args=[gen], keywords=[])
+        node = ast.Expr(value=new_call)
+        ast.copy_location(node, s)
+        ast.fix_missing_locations(node)
+        return node
+
     def for_over(self, s, it, st):
         ordinal, spec = self.loop_spec(s, st)
         items = self.static_items(it, st)
@@ -2706,6 +2742,12 @@ class _StmtMixin:
             yield from go(0, st)
             return
         if spec is None:
+            rewritten = self.append_map_loop(s, st)
+            if rewritten is not None:
+                # `for x in xs: L.append(E)` with nothing else in the body is `L.extend(E for x in xs)` (same evaluation order, same
+                # exceptions); the loop variable is dead afterwards (checked), so the one difference - it stays bound - is unobservable
+                yield from self.x_Expr(rewritten, st)
+                return
             raise ToolLimit(f"for loop #{ordinal} at line {s.lineno} has no invariant in the contract")
         if len(st.sframes) != 1:
             raise ToolLimit("loop with invariant inside an inlined function")
